@@ -13,7 +13,7 @@ RULE = (
     "without =value, grouped shorts, negative numbers, null, words) instantiated against each of the 60 small "
     "formats (argument shapes x option shapes incl. no arguments at all, typed optional-value options, command "
     "names), strict and lenient; faults: Hypothesis C01 lines with exactly one fault (drop required positional, "
-    "surplus positional, unknown long/short option, value attached to a flag, required value stripped, ill-typed "
+    "surplus positional, unknown long/short option (also inside a short-flag group), value attached to a flag, required value stripped, ill-typed "
     "value). Non-trivial (soup): >= 1 option-like token and >= 1 of {'', -, --, negative number, token with '='}; "
     "every fault mutant is non-trivial. Soup cases are distinct by construction, fault cases by hash."
 )
@@ -146,9 +146,9 @@ def shard_soup(ctx, arg):
 
 
 # ------------------------------------------------------------------------------------------ faults
-FAULTS = ["drop-required", "surplus", "unknown-long", "unknown-short", "flag-value", "strip-required-value", "ill-typed"]
+FAULTS = ["drop-required", "surplus", "unknown-long", "unknown-short", "unknown-in-group", "flag-value", "strip-required-value", "ill-typed"]
 EXPECT = {"drop-required": "CannotParse", "surplus": "CannotParse", "unknown-long": "NoSuchOption",
-          "unknown-short": "NoSuchOption", "flag-value": "CannotParse", "strip-required-value": "CannotParse",
+          "unknown-short": "NoSuchOption", "unknown-in-group": "NoSuchOption", "flag-value": "CannotParse", "strip-required-value": "CannotParse",
           "ill-typed": "ValueError"}
 
 
@@ -180,6 +180,13 @@ def apply_fault(case, fault, pick):
     if fault in ("unknown-long", "unknown-short"):
         i = pick % (head_end + 1)
         units.insert(i, {"kind": "opt", "tokens": ["--nope" if fault == "unknown-long" else "-Z"]})
+        return _tokens(units)
+    if fault == "unknown-in-group":
+        cands = [i for i, u in enumerate(units) if u.get("form") in ("flag-short", "group")]
+        if not cands:
+            return None
+        u = units[cands[pick % len(cands)]]
+        u["tokens"] = [u["tokens"][0] + "Z"]
         return _tokens(units)
     if fault == "flag-value":
         cands = [i for i, u in enumerate(units) if u.get("form") == "flag-long"]
